@@ -599,3 +599,96 @@ pub fn header_from_json(kind: u8, v: &Value) -> LibResult<(String, Value)> {
         Err(e) => Err(e),
     }
 }
+
+// ---------------------------------------------------------------- legacy field-map API
+
+use std::collections::{BTreeMap, HashMap};
+pub type FMap = BTreeMap<String, Vec<(String, usize)>>;
+
+fn to_btree(m: HashMap<String, Vec<(String, usize)>>) -> FMap {
+    m.into_iter().collect()
+}
+fn to_hash(m: &FMap) -> HashMap<String, Vec<(String, usize)>> {
+    m.iter().map(|(k, v)| (k.clone(), v.clone())).collect()
+}
+
+pub fn block4_fields(text: &str) -> LibResult<FMap> {
+    flat(guard(|| swift_mt_message::parser::parse_block4_fields(text).map(to_btree)))
+}
+
+pub fn normalize_tag(raw: &str) -> LibResult<String> {
+    guard(|| swift_mt_message::parser::normalize_field_tag(raw).into_owned())
+}
+
+#[derive(Clone, Debug, serde::Serialize, serde::Deserialize, PartialEq)]
+pub enum TrackerOp {
+    /// get_next_available(tag) without marking
+    Peek(String),
+    /// get_next_available(tag) then mark_consumed
+    Take(String),
+    /// find_field_with_variant_sequential_constrained(base, constraints)
+    Find(String, Option<Vec<String>>),
+}
+
+/// result of one op: (key, value, position) or None
+pub type TrackerRes = Option<(String, String, usize)>;
+
+pub fn run_tracker(map: &FMap, ops: &[TrackerOp]) -> LibResult<Vec<TrackerRes>> {
+    use swift_mt_message::parser::{FieldConsumptionTracker, find_field_with_variant_sequential_constrained};
+    guard(|| {
+        let h = to_hash(map);
+        let mut tr = FieldConsumptionTracker::new();
+        let mut out = Vec::new();
+        for op in ops {
+            match op {
+                TrackerOp::Peek(tag) => {
+                    let r = h.get(tag).and_then(|vals| tr.get_next_available(tag, vals)).map(|(v, p)| (tag.clone(), v.to_string(), p));
+                    out.push(r);
+                }
+                TrackerOp::Take(tag) => {
+                    let r = h.get(tag).and_then(|vals| tr.get_next_available(tag, vals)).map(|(v, p)| (tag.clone(), v.to_string(), p));
+                    if let Some((_, _, p)) = &r {
+                        tr.mark_consumed(tag, *p);
+                    }
+                    out.push(r);
+                }
+                TrackerOp::Find(base, cons) => {
+                    let cv: Option<Vec<&str>> = cons.as_ref().map(|v| v.iter().map(|s| s.as_str()).collect());
+                    let r = find_field_with_variant_sequential_constrained(&h, base, &mut tr, cv.as_deref());
+                    out.push(r.map(|(v, variant, p)| (format!("{}{}", base, variant.unwrap_or_default()), v, p)));
+                }
+            }
+        }
+        out
+    })
+}
+
+pub fn split_sequences(map: &FMap, marker: &str, c_fields: &[String], has_c: bool) -> LibResult<(FMap, FMap, FMap)> {
+    use swift_mt_message::parser::{SequenceConfig, split_into_sequences};
+    flat(guard(|| {
+        let cfg = SequenceConfig { sequence_b_marker: marker.to_string(), sequence_c_fields: c_fields.to_vec(), has_sequence_c: has_c };
+        split_into_sequences(&to_hash(map), &cfg).map(|p| (to_btree(p.sequence_a), to_btree(p.sequence_b), to_btree(p.sequence_c)))
+    }))
+}
+
+pub fn sequence_config(mt: &str) -> (String, Vec<String>, bool) {
+    let c = swift_mt_message::parser::get_sequence_config(mt);
+    (c.sequence_b_marker, c.sequence_c_fields, c.has_sequence_c)
+}
+
+pub fn repetitive_sequence(map: &FMap, marker: &str) -> LibResult<Vec<FMap>> {
+    flat(guard(|| swift_mt_message::parser::parse_repetitive_sequence::<MT101>(&to_hash(map), marker).map(|v| v.into_iter().map(to_btree).collect())))
+}
+
+// ---------------------------------------------------------------- error rendering
+
+pub fn render_error(e: &ParseError, input: &str) -> LibResult<usize> {
+    guard(|| {
+        let a = e.to_string();
+        let b = e.debug_report();
+        let c = e.brief_message();
+        let d = e.format_with_context(input);
+        let j = serde_json::to_string(e).unwrap_or_default();
+        a.len() + b.len() + c.len() + d.len() + j.len()
+    })
+}
